@@ -314,6 +314,16 @@ def _eval_inner(case, c):
             pt = [0.3, -0.7, 1.1][: G.DIM[kind]]
             c.phys("after in-place edit: a (+) point", I.POINT_OF[kind], pa + np.array(pt), G.act(kind, b, pt), sc2 * 2, want_kind=I.POINT_OF[kind])
         np.asarray(pa)[...] = a0
+        # results handed out earlier stay what they were while other poses are composed (no shared result buffers)
+        r_keep = pa + pb
+        d_keep = pa - pb
+        v1, v2 = I.comps(r_keep), I.comps(d_keep)
+        _ = pb + pa
+        _ = pb - pa
+        _ = pb.inverse
+        c.nops += 1
+        if I.comps(r_keep) != v1 or I.comps(d_keep) != v2:
+            c.msgs.append("a result returned earlier changed when other poses were composed (shared result buffer)")
         # ndarray operand forms the library documents by dispatch on length
         if kind in ("R2", "R3"):
             c.phys("a (+) ndarray", kind, pa + np.array(b), G.compose(kind, a, b), sc2)
@@ -329,6 +339,14 @@ def _eval_inner(case, c):
         c.phys("pose (+) point", pk, pa + pp, exp, sc, want_kind=pk)
         c.phys("pose (+) ndarray point", pk, pa + np.array(p, dtype=float), exp, sc, want_kind=pk)
         c.phys("act() agrees", pk, pa + pp, G.act(kind, a, p), sc, want_kind=pk)
+        first = pa + pp
+        keep = I.comps(first)
+        other_pose = I.mk_pose(kind, [x + 1.0 for x in a[: G.DIM[kind]]] + a[G.DIM[kind] :])
+        _ = other_pose + I.mk_pose(pk, [x - 2.0 for x in p])
+        _ = other_pose + np.array(p, dtype=float)
+        c.nops += 1
+        if I.comps(first) != keep:
+            c.msgs.append("a point returned by pose (+) point changed when another pose (+) point was evaluated (shared result buffer)")
         return
     if t == "unary":
         sc = 1.0 + 2 * sum(abs(x) for x in a[: G.DIM[kind]])
@@ -349,6 +367,16 @@ def _eval_inner(case, c):
         if kind == "SE2":
             c.phys("from_matrix(to_matrix(p))", kind, I.CLS[kind].from_matrix(pa.to_matrix()), a, sc)
             c.phys("from_matrix(M_ref)", kind, I.CLS[kind].from_matrix(np.array(G.to_mat(kind, a))), a, sc)
+        # identity() hands out independent objects
+        scratch = I.CLS[kind].identity()
+        np.asarray(scratch)[: G.DIM[kind]] = 5.0
+        c.phys("identity() after an earlier identity() object was edited in place", kind, I.CLS[kind].identity(), e, 1.0)
+        # a pose built from single-precision input is still a double-precision pose
+        if kind in ("R2", "R3"):
+            a32 = np.array([round(x * 8) / 8 for x in a], dtype=np.float32)
+            p32 = I.CLS[kind](a32)
+            big = I.CLS[kind]([2.0**24 + 1.0] + [0.5] * (len(a) - 1))
+            c.phys("pose built from a float32 array, composed with a large double pose", kind, (p32 + big) - p32, I.comps(big), 1.0 + 2.0**24 * 1e-9)
         cp = pa.copy()
         c.phys("copy", kind, cp, a, sc)
         c.nops += 1
